@@ -171,6 +171,7 @@ type world struct {
 	digit  map[[3]int]int   // op (c,k,n) -> digit position
 	reqs   map[int]*rt.PReq // spec request id -> real request
 	seenRq int              // number of proxy requests already attributed
+	early  string           // set by the setup: a first sync was reported complete before the client listened to its topic
 }
 
 type run struct {
@@ -233,10 +234,28 @@ func (e *engine) setup() (w *world, err error) {
 			if c == 1 {
 				mode = "dueCreate"
 			}
+			// the last client meets a broker that is slow to register subscriptions: when its first sync is reported
+			// complete (state-change handler), it must already be listening to the topic - a push made right then is
+			// announced only to those who are
+			slow := c == e.n && k == e.k && e.nth%3 == 0
+			if slow {
+				e.srv.St.BR.SetSubscribeDelay(20 * time.Millisecond)
+			}
 			d := cl.OpenCounter(w.keys[k-1], mode)
-			if !rt.WaitFor(long, d.Subscribed) {
+			okSub := rt.WaitFor(long, d.Subscribed)
+			listening := e.srv.St.BR.Subscriptions(cl.CUID)
+			if slow {
+				e.srv.St.BR.SetSubscribeDelay(0)
+			}
+			if !okSub {
 				_, errs, _ := d.Ev.Get()
 				return w, fmt.Errorf("setup: client %d key %d not subscribed: %v", c, k, errs)
+			}
+			if slow {
+				e.count("first syncs: listening when reported complete")
+				if listening < k {
+					w.early = fmt.Sprintf("client %d was told its first sync of key %d is complete (SUBSCRIBED) before it listens to the key's notifications: %d of %d topics registered at the broker", c, k, listening, k)
+				}
 			}
 			row = append(row, d)
 			// the goroutine that made the first sync still holds the client's semaphore for a moment
@@ -792,6 +811,10 @@ func (e *engine) behaviour(acts []Act, obsAt func(i int) *Obs) bool {
 	}
 	r := &run{e: e, w: w, acts: acts}
 	e.sum.Behaviours++
+	if w.early != "" {
+		r.violate(0, "mismatch", w.early, nil, nil)
+		return false
+	}
 	last := -1
 	des0 := e.sum.Desynced
 	for i := range acts {
